@@ -404,6 +404,21 @@ def check_prop(prop, tier, seed):
     return rep.finish(rule=RULES[prop])
 
 
+def c08_parser_part(rep, tier, seed):
+    """parser half of C08 added to a report: every parse of the core batch ran under catch_unwind, a pull budget
+    and a watchdog; LRMachine.tla's StepBound / AcceptsTerminates invariants were model-checked over the exported tables"""
+    s = shared(tier, seed)
+    n = s["stats"]["C08"]
+    rep.evaluations += n
+    rep._distinct |= {("parser", i) for i in range(n)}
+    rep.add(states=s["states"], transitions=s["generated"], traces_validated_against_impl=n,
+            parser_parses_under_watchdog=n, parser_machine_records=s["machine_records"],
+            parser_recovered_parses=s["machine_recovered_parses"])
+    for d in s["disagreements"]:
+        if d["prop"] == "C08":
+            rep.violation(dkey(d), describe(d), replay_obj(d))
+
+
 def replay(obj):
     cargo_build_or_die(["lpdrv", "runner"])
     cg = obj["cg"]
